@@ -6,7 +6,7 @@
    comma-joined join values are k, in left-file order; right_out o L r = what the nested-loop reading of the property
    statement prescribes for right record r: its pairs (compose l r, left-file order), or nothing under --np, or, when
    it matches nothing / has no key, its unpaired form under --ur. *)
-From Miller Require Import Base.Bytes Base.Record C13.Model C13.Proofs.
+From Miller Require Import Base.Bytes Base.Record C13.Model C13.Proofs C13.ProofsSorted.
 From Coq Require Import Permutation.
 
 (* unsorted join = nested loop, in right-stream order then left-file order, for every flag combination;
@@ -73,9 +73,22 @@ Theorem C13_composition_other_names :
 Proof. exact put_others_keys_incl. Qed.
 Print Assumptions C13_composition_other_names.
 
-(* sorted-input mode: NOT proved equal to the default mode as multisets; join_sorted is an executable transliteration of
-   JoinBucketKeeper tied to the code by correspondence (both on key-sorted and on unsorted inputs), and the equality of
-   multisets on key-sorted inputs is checked on the implementation's outputs by the harness oracle. *)
+(* sorted-input mode (-s), ALL inputs, sorted or not: the output decomposes, right record by right record, into the
+   left-unpaired records flushed at that point followed by records built from that right record only (its unpaired form
+   and/or its pairs), plus a final flush; and the left records behind the flushed ones (before renaming), together with
+   some rest D (the records of buckets that were paired), are a permutation of the left file: no left record is emitted
+   as unpaired twice, none is invented, none is lost without its bucket having been paired.
+   _partial: this is the left-record accounting only.  NOT proved: that on key-sorted inputs the multiset of output
+   records equals the default mode's (correspondence on sorted and unsorted inputs + oracle on mlr's output only). *)
+Theorem C13_sorted_mode_accounts_for_left_records_partial :
+  forall o left right, ul o = true ->
+  exists (steps : list (list record * list record)) (final D : list record),
+    join_sorted o left right
+    = flat_map (fun s => map (unpaired_left o) (fst s) ++ snd s) steps ++ map (unpaired_left o) final
+    /\ Forall2 (fun s r => from_right o r (snd s)) steps right
+    /\ Permutation (lefts o left) (List.concat (map fst steps) ++ final ++ D).
+Proof. exact join_sorted_conserves_left. Qed.
+Print Assumptions C13_sorted_mode_accounts_for_left_records_partial.
 
 Example C13_nonvacuous :
   let o := mkOpts [B "id"] [B "id"] [B "id"] [] [] None false true true false in
